@@ -19,7 +19,8 @@ from sx import Sym, Str
 
 PROP = "C09"
 PROP_FILE = "C09_SchemaSyn"
-THEOREMS = ["c09_reference_form_insensitive_partial", "c09_resolve_order_independent_partial", "c09_validation_same",
+THEOREMS = ["c09_reference_form_insensitive_partial", "c09_reference_form_types_partial",
+            "c09_resolve_order_independent_partial", "c09_validation_same",
             "c09_cedar_roundtrip_refuted"]
 
 MANIFEST = {
